@@ -2,8 +2,47 @@
   C16 / C17 — the chain: every crossing of the boundary with a grid line and every retained point of interest is a
   vertex of the map the modelled pipeline returns (the central clause of C16; for capture: anchored to a node).
 
-  See the end of the file for the statement (`C16_crossings_are_vertices`, `C16_poi_are_vertices`,
-  `C17_poi_are_node_vertices`) and the list of what is proved and what is a named hypothesis.
+  `pipelineMap m0 g eps poi verts segs ha keys2 keys4` = steps 1-5 of the model on the grid map `m0`
+  (`slotsAll` / `segmentsOf` → `stepsTwoThree` → `edgeData` → `stepFive`), `keys2` / `keys4` the iteration orders of the two
+  `HashMap`s; "`x` is a vertex at `P`" is `Carries m x P`: `x` is a dart in use and the slot of its vertex identifier
+  (`C03.cellId m .vertex x`, what `vertex_id` returns) in the coordinate storage holds `P`.
+
+  THEOREMS
+  * `C16_crossings_are_vertices`  for every grid, every geometry whose segments are in eps-general position (`GenPos`), both
+                                  iteration orders arbitrary: if the pipeline succeeds, every crossing of every segment with
+                                  a grid line is a vertex of the result, at the crossing point
+  * `C16_poi_are_vertices`        every point of interest lying on a chain between two crossings is a vertex of the result,
+                                  at its own coordinates (no general-position hypothesis)
+  * `C17_poi_are_node_vertices`   … and in capture (anchor storages) that vertex is anchored `Node(j)`
+  with, on the way,
+  * `insertIntersections_carries` the ALL-EDGES INDUCTION of step 3 (distinct edges get disjoint fresh blocks; the per-edge
+    `C16_steps23_carries`         facts of C14 transport along the frame `carries_insert_frame`): every written slot's dart
+                                  starts at the point at position `t` of the side that was hit, whatever the order
+  * `carries_buildBaseEdge`       `build_base_edge` keeps the vertex (identifier and slot) of every older dart — the two new
+                                  darts are spliced into the two end vertices (orbit calculus on the explicit β tables)
+  * `carriesS_insertOneEdge`, `insertEdgesFrom_carries`, `C16_stepFive_carries`
+                                  step 5 keeps every older vertex with its coordinates and anchors, and turns every
+                                  intermediate point into a vertex (anchored `Node(edge index)`)
+
+  PROVED / DISCHARGED inside the chain: completeness and slot of the crossing (`C16_crossings_complete`,
+  `C16_slots_genpos`); identifiers = slot numbers; the induction over all edges of step 3; well-formedness and absence of
+  tags after step 3; vertex stability through `add_free_darts`, `build_base_edge`, `insert_vertices_on_edge`, the placeholder
+  replacement and `mark_boundary`; independence of both `HashMap` orders (they are universally quantified parameters).
+
+  NAMED HYPOTHESES (each satisfiable — the two examples at the end instantiate everything on a 3 × 1 grid — and each
+  evaluated by the tie on every generated case):
+  * success of the run (`pipelineMap … = some m'`): in particular step 5 does not hit the consecutive-darts panic of
+    `build_base_edge` and `insert_vertices_on_edge` finds its end points; a panicking run returns no map
+  * `SideCoords`      the grid map carries, at the dart of every crossing, the side the kernel computed (builder coordinates +
+                      `C16_crossings_sound`; tie: oracle clause `position` of the `gids` stream)
+  * `KeysOK`          the iteration order of step 2 lists distinct in-use identifier darts, among them every hit edge
+                      (what a `HashMap` keyed by `edge_id` yields; tie: the order is read off the implementation)
+  * `EdgeDartsInUse`  the start / end darts step 4 hands to step 5 are in use (tie: clause `edge-darts-in-use`)
+  * `OnChain`         (points of interest only) the point lies on a chain leaving an intersection key — false exactly for the
+                      loops inside one cell of findings D16a / D17a
+  NOT NEEDED by these clauses, and not proved: that each new edge lies inside ONE cell (`EdgesInOneCell`: a geometric
+  statement about faces, evaluated by the tie clause `edges-in-one-cell`; `C16_between_crossings_one_cell` covers one
+  segment); f64 rounding.
 -/
 import Honeycomb.Props.C14c
 import Honeycomb.Props.C16Cross
@@ -20,8 +59,11 @@ open HC
 /-! ## "the dart `x` starts at a vertex carrying the value `P`" -/
 
 /-- `x` is a dart in use and the slot of its vertex identifier in the coordinate storage holds `P` -/
-def Carries (m : Map Val) (x : Nat) (P : Val) : Prop :=
-  C01.InUse m x ∧ m.att 0 (C03.cellId m .vertex x) = some P
+def CarriesS (m : Map Val) (s x : Nat) (P : Val) : Prop :=
+  C01.InUse m x ∧ m.att s (C03.cellId m .vertex x) = some P
+
+/-- … in the coordinate storage -/
+def Carries (m : Map Val) (x : Nat) (P : Val) : Prop := CarriesS m 0 x P
 
 /-- the cell identifier only depends on the set of darts reachable -/
 theorem cellId_of_reach {m m' : Map Val} (hwf : WF 3 m) (hwf' : WF 3 m') {y : Nat} (hy0 : y ≠ 0) (hy : y < m.n)
@@ -106,7 +148,7 @@ theorem carries_addFreeDarts {m : Map Val} (hwf : WF 3 m) (k : Nat) {x : Nat} {P
 theorem carries_insert_frame {m m' : Map Val} {e off len : Nat} {ts : List Rat} (hlen : ts.length = len) (hwf : WF 3 m)
     (he : C01.InUse m e) (hlive : ∀ d, d ∈ List.range' off (2 * len) → m.unused d = false)
     (hr : run (insertVerticesOnEdge m.n e (List.range' off (2 * len)) ts) m = (.ok (), m'))
-    {x : Nat} {P : Val} (hx : x < off ∨ off + 2 * len ≤ x) (h : Carries m x P) : Carries m' x P := by
+    {x s : Nat} {P : Val} (hx : x < off ∨ off + 2 * len ≤ x) (h : CarriesS m s x P) : CarriesS m' s x P := by
   have hfhnd : ((List.range' off (2 * len)).take ts.length).Nodup := (List.nodup_range').sublist (List.take_sublist _ _)
   have inv := C14.insertVertices_inv m m' e _ _ hwf he hlive (fun _ => List.nodup_range') hr
   obtain ⟨⟨x0, xlt, xu⟩, hat⟩ := h
@@ -114,7 +156,7 @@ theorem carries_insert_frame {m m' : Map Val} {e off len : Nat} {ts : List Rat} 
     refine ⟨fun hh => ?_, fun _ hh => ?_⟩
     · have := List.mem_range'_1.1 (List.mem_of_mem_take hh); omega
     · have := List.mem_range'_1.1 (List.mem_of_mem_drop hh); omega
-  have := C14.C14_old_vertices_keep_coordinates m m' e _ _ hwf he hlive hfhnd (fun _ => List.nodup_range') hr x hold x0 xlt 0
+  have := C14.C14_old_vertices_keep_coordinates m m' e _ _ hwf he hlive hfhnd (fun _ => List.nodup_range') hr x hold x0 xlt s
   exact ⟨⟨x0, by rw [inv.n_eq]; exact xlt, by unfold Map.unused; rw [inv.u_eq]; exact xu⟩, by rw [this]; exact hat⟩
 
 /-- the new vertices: the `i`-th dart of the first half, and its mirror on the second side, start at the point at
@@ -216,5 +258,1066 @@ theorem carries_insert_new {m m' : Map Val} {e off len : Nat} {ts : List Rat} (h
   rw [hstep] at hid
   exact ⟨⟨hx0, hx_lt', by unfold Map.unused; rw [inv.u_eq]; exact hlive _ (List.mem_range'_1.2 ⟨by omega, by omega⟩)⟩,
     by rw [← hid]; exact c1.2⟩
+
+/-! ## the all-edges induction of `insert_intersections` -/
+
+/-- a dart with a non-null image is not one of the darts still free -/
+theorem not_fresh {m : Map Val} {off : Nat} (hfresh : ∀ d, off ≤ d → d < m.n → m.unused d = false ∧ ∀ i, i < 3 → m.β i d = 0)
+    {d : Nat} (hd : d < m.n) {j : Nat} (hj : j < 3) (hne : m.β j d ≠ 0) : d < off := by
+  rcases Nat.lt_or_ge d off with h | h
+  · exact h
+  · exact absurd ((hfresh d h hd).2 j hj) hne
+
+/-- **C16, step 3 — every edge**: `insert_intersections` over the groups in the iteration order, blocks handed out
+    consecutively from `off`.  Distinct edges get disjoint fresh blocks, so the per-edge facts transport along the frame:
+    the result is well formed, every dart below `off` keeps what it carries, and the `i`-th hit of the `j`-th edge `e`
+    (positions sorted) has its dart of the first half `o + i` — and, on a two-dart edge, the mirror dart
+    `o + len + (len-1-i)` — starting at the point at position `h.t` between the two end points of `e` -/
+theorem insertIntersections_carries : ∀ (gs : List (Nat × List Hit)) (m m' : Map Val) (off : Nat), WF 3 m →
+    (∀ d, off ≤ d → d < m.n → m.unused d = false ∧ ∀ i, i < 3 → m.β i d = 0) →
+    off + 2 * (gs.map (·.2.length)).sum ≤ m.n → 0 < off →
+    (∀ g, g ∈ gs → C01.InUse m g.1 ∧ g.1 < off ∧ m.β 1 g.1 ≠ 0) →
+    (gs.map (·.1)).Nodup → (∀ g, g ∈ gs → ∀ g', g' ∈ gs → m.β 2 g.1 ≠ g'.1) →
+    run (insertIntersections m.n (gs.zip (slicesFrom off (gs.map (·.2.length))))) m = (.ok (), m') →
+    WF 3 m' ∧ m'.n = m.n ∧ m'.u = m.u ∧ (∀ s d, s ≠ 0 → m'.att s d = m.att s d) ∧
+    (∀ x P, x < off → Carries m x P → Carries m' x P) ∧
+    (∀ (j : Nat) (g : Nat × List Hit), gs[j]? = some g → ∀ v1 v2, Carries m g.1 v1 → Carries m (m.β 1 g.1) v2 →
+      ∀ (i : Nat) (h : Hit), g.2[i]? = some h →
+        Carries m' (off + 2 * ((gs.map (·.2.length)).take j).sum + i) (placeVal v1 v2 (some h.t)) ∧
+        (m.β 2 g.1 ≠ 0 → Carries m' (off + 2 * ((gs.map (·.2.length)).take j).sum + (g.2.length + (g.2.length - 1 - i)))
+          (placeVal v1 v2 (some h.t)))) := by
+  intro gs
+  induction gs with
+  | nil =>
+      intro m m' off hwf _ _ _ _ _ _ hr
+      simp only [List.map_nil, slicesFrom, List.zip_nil_right, insertIntersections, Prog.pure_eq, run_ret,
+        Prod.mk.injEq] at hr
+      rw [← hr.2]
+      exact ⟨hwf, rfl, rfl, fun _ _ _ => rfl, fun _ _ _ h => h, fun j g hg => by simp at hg⟩
+  | cons g rest ih =>
+      intro m m' off hwf hfresh hroom hpos hkeys hnd hcan hr
+      simp only [List.map_cons, slicesFrom, List.zip_cons_cons, insertIntersections, Prog.bind_eq] at hr
+      obtain ⟨_, m1, h1, h2⟩ := run_bind_ok hr
+      simp only [List.map_cons, List.sum_cons] at hroom
+      set len := g.2.length with hlen
+      obtain ⟨ig, glt, gb1⟩ := hkeys g List.mem_cons_self
+      have hts : (g.2.map (·.t)).length = len := by rw [List.length_map]
+      have hlive : ∀ d, d ∈ List.range' off (2 * len) → m.unused d = false := by
+        intro d hd
+        have := List.mem_range'_1.1 hd
+        exact (hfresh d (by omega) (by omega)).1
+      have hfhnd : ((List.range' off (2 * len)).take (g.2.map (·.t)).length).Nodup :=
+        (List.nodup_range').sublist (List.take_sublist _ _)
+      have inv := C14.insertVertices_inv m m1 g.1 _ _ hwf ig hlive (fun _ => List.nodup_range') h1
+      obtain ⟨w1, hres⟩ := C14.C14_insertVertices_beta_structure m m1 g.1 _ _ hwf ig hlive hfhnd
+        (fun _ => List.nodup_range') h1
+      -- the darts the insertion touches
+      have inF : ∀ y, y ∈ (List.range' off (2 * len)).take (g.2.map (·.t)).length → off ≤ y ∧ y < off + 2 * len := by
+        intro y hy; have := List.mem_range'_1.1 (List.mem_of_mem_take hy); omega
+      have inS : ∀ y, y ∈ (List.range' off (2 * len)).drop (g.2.map (·.t)).length → off ≤ y ∧ y < off + 2 * len := by
+        intro y hy; have := List.mem_range'_1.1 (List.mem_of_mem_drop hy); omega
+      have hb2lt : m.β 2 g.1 < off := by
+        by_cases hz : m.β 2 g.1 = 0
+        · rw [hz]; exact hpos
+        · have hi := hwf.invol 2 (by omega) (by omega) g.1 ig.2.1 hz
+          exact not_fresh hfresh (hwf.range 2 (by omega) _ ig.2.1) (by omega : 2 < 3) (by rw [hi.1]; exact ig.1)
+      -- a dart below `off` other than the edge's two darts keeps its β1 / β2 images
+      have fr1 : ∀ y, y < off → y ≠ g.1 → y ≠ m.β 2 g.1 → m1.β 1 y = m.β 1 y := by
+        intro y hy a b
+        refine hres.frame1 y ?_ (fun _ => ?_)
+        · intro hh; rcases List.mem_cons.1 hh with h | h
+          · exact a h
+          · have := inF y h; omega
+        · intro hh; rcases List.mem_cons.1 hh with h | h
+          · exact b h
+          · have := inS y h; omega
+      have fr2 : ∀ y, y < off → y ≠ g.1 → y ≠ m.β 2 g.1 → m1.β 2 y = m.β 2 y := by
+        intro y hy a b
+        refine hres.frame2 y (fun _ => ⟨?_, ?_⟩)
+        · intro hh; rcases List.mem_cons.1 hh with h | h
+          · exact a h
+          · have := inF y h; omega
+        · intro hh; rcases List.mem_cons.1 hh with h | h
+          · exact b h
+          · have := inS y h; omega
+      have hsub : ∀ g', g' ∈ rest → g' ∈ g :: rest := fun g' h => List.mem_cons_of_mem _ h
+      have hne_g : ∀ g', g' ∈ rest → g'.1 ≠ g.1 := by
+        intro g' hg' e
+        simp only [List.map_cons, List.nodup_cons, List.mem_map, not_exists, not_and] at hnd
+        exact hnd.1 g' hg' e
+      -- the hypotheses for the remaining edges, on the new map
+      have hfresh1 : ∀ d, off + 2 * len ≤ d → d < m1.n → m1.unused d = false ∧ ∀ i, i < 3 → m1.β i d = 0 := by
+        intro d hd hdn
+        rw [inv.n_eq] at hdn
+        obtain ⟨fu, fb⟩ := hfresh d (by omega) hdn
+        refine ⟨by unfold Map.unused; rw [inv.u_eq]; exact fu, ?_⟩
+        have o1 : d ∉ g.1 :: (List.range' off (2 * len)).take (g.2.map (·.t)).length := by
+          intro hh; rcases List.mem_cons.1 hh with h | h
+          · omega
+          · have := inF d h; omega
+        have o2 : d ∉ m.β 2 g.1 :: (List.range' off (2 * len)).drop (g.2.map (·.t)).length := by
+          intro hh; rcases List.mem_cons.1 hh with h | h
+          · omega
+          · have := inS d h; omega
+        intro i hi
+        rcases (by omega : i = 0 ∨ i = 1 ∨ i = 2) with rfl | rfl | rfl
+        · rw [hres.frame0 d (fun h => o1 (List.mem_cons_of_mem _ h)) ?_ (fun _ => ⟨fun h => o2 (List.mem_cons_of_mem _ h), ?_⟩)]
+          · exact fb 0 (by omega)
+          · intro e
+            have hb : m.β 0 (m.β 1 g.1) = g.1 := hwf.inv01 g.1 ig.2.1 gb1
+            rw [← e, fb 0 (by omega)] at hb; exact ig.1 hb.symm
+          · intro e
+            by_cases hz : m.β 1 (m.β 2 g.1) = 0
+            · rw [hz] at e; omega
+            · have hb : m.β 0 (m.β 1 (m.β 2 g.1)) = m.β 2 g.1 := hwf.inv01 _ (hwf.range 2 (by omega) _ ig.2.1) hz
+              rw [← e, fb 0 (by omega)] at hb
+              have : m.β 1 (m.β 2 g.1) = 0 := by rw [← hb]; exact hwf.null 1 (by omega)
+              exact hz this
+        · rw [hres.frame1 d o1 (fun _ => o2)]; exact fb 1 (by omega)
+        · rw [hres.frame2 d (fun _ => ⟨o1, o2⟩)]; exact fb 2 (by omega)
+      have hkeys1 : ∀ g', g' ∈ rest → C01.InUse m1 g'.1 ∧ g'.1 < off + 2 * len ∧ m1.β 1 g'.1 ≠ 0 := by
+        intro g' hg'
+        obtain ⟨a, b, c⟩ := hkeys g' (hsub g' hg')
+        refine ⟨⟨a.1, by rw [inv.n_eq]; exact a.2.1, by unfold Map.unused; rw [inv.u_eq]; exact a.2.2⟩, by omega, ?_⟩
+        rw [fr1 g'.1 b (hne_g g' hg') (fun e => hcan g List.mem_cons_self g' (hsub g' hg') e.symm)]; exact c
+      have hcan1 : ∀ a, a ∈ rest → ∀ b, b ∈ rest → m1.β 2 a.1 ≠ b.1 := by
+        intro a ha b hb
+        rw [fr2 a.1 (hkeys a (hsub a ha)).2.1 (hne_g a ha) (fun e => hcan g List.mem_cons_self a (hsub a ha) e.symm)]
+        exact hcan a (hsub a ha) b (hsub b hb)
+      rw [← inv.n_eq] at h2
+      obtain ⟨_, _, _, _, _, _, _, _, _, hatt1⟩ := C14.C14_new_vertex_position_full m m1 g.1 _ _ hwf ig hlive hfhnd
+        (fun _ => List.nodup_range') h1
+      obtain ⟨w', n', u', att', frame', res'⟩ := ih m1 m' (off + 2 * len) w1 hfresh1 (by rw [inv.n_eq]; omega) (by omega) hkeys1
+        (by simp only [List.map_cons, List.nodup_cons] at hnd; exact hnd.2) hcan1 h2
+      have frame01 : ∀ x P, x < off → Carries m x P → Carries m1 x P := fun x P hx hc =>
+        carries_insert_frame hts hwf ig hlive h1 (Or.inl hx) hc
+      refine ⟨w', by rw [n', inv.n_eq], by rw [u', inv.u_eq],
+        fun s d hs0 => by rw [att' s d hs0]; exact hatt1 s d (Or.inl hs0),
+        fun x P hx hc => frame' x P (by omega) (frame01 x P hx hc), ?_⟩
+      intro j gj hj v1 v2 c1 c2 i h hi
+      cases j with
+      | zero =>
+          simp only [List.getElem?_cons_zero, Option.some.injEq] at hj
+          subst hj
+          simp only [List.take_zero, List.sum_nil, Nat.mul_zero, Nat.add_zero]
+          have hti : (g.2.map (·.t))[i]? = some h.t := by rw [List.getElem?_map, hi]; rfl
+          obtain ⟨a, b⟩ := carries_insert_new hts hwf ig gb1 hlive h1 c1 c2 hti
+          have hilt : i < len := by
+            rcases Nat.lt_or_ge i len with hh | hh
+            · exact hh
+            · rw [List.getElem?_eq_none hh] at hi; cases hi
+          exact ⟨frame' _ _ (by omega) a, fun he2 => frame' _ _ (by omega) (b he2)⟩
+      | succ j' =>
+          simp only [List.getElem?_cons_succ] at hj
+          have hgj : gj ∈ rest := List.mem_of_getElem? hj
+          obtain ⟨a, b, c⟩ := hkeys gj (hsub gj hgj)
+          have hne1 := hne_g gj hgj
+          have hne2 : gj.1 ≠ m.β 2 g.1 := fun e => hcan g List.mem_cons_self gj (hsub gj hgj) e.symm
+          have hb1lt : m.β 1 gj.1 < off :=
+            not_fresh hfresh (hwf.range 1 (by omega) _ a.2.1) (by omega : 0 < 3) (by rw [hwf.inv01 _ a.2.1 c]; exact a.1)
+          have := res' j' gj hj v1 v2 (frame01 _ _ b c1) (by rw [fr1 gj.1 b hne1 hne2]; exact frame01 _ _ hb1lt c2) i h hi
+          rw [fr2 gj.1 b hne1 hne2] at this
+          have harith : off + 2 * len + 2 * (List.take j' (List.map (fun x => x.2.length) rest)).sum =
+              off + 2 * (List.take (j' + 1) (len :: List.map (fun x => x.2.length) rest)).sum := by
+            rw [List.take_succ_cons, List.sum_cons]; omega
+          rw [harith] at this
+          exact this
+
+/-! ## steps 2 + 3 on a map -/
+
+theorem placeVal_flip (v1 v2 : Val) (t : Rat) : placeVal v2 v1 (some (1 - t)) = placeVal v1 v2 (some t) := by
+  simp only [placeVal, P2.place, P2.lerp, P2.toVal, Val.pt.injEq, and_true]
+  constructor <;> ring
+
+/-- two canonical darts (`edge_id(e) = e`) of a well-formed map are not β2 images of each other -/
+theorem canonical_not_opposite {m : Map Val} (hwf : WF 3 m) {e e' : Nat} (he : C01.InUse m e) (he' : e' ≠ 0)
+    (hc : edgeOf (m.β 2) e = e) (hc' : edgeOf (m.β 2) e' = e') : m.β 2 e ≠ e' := by
+  intro h
+  have h2 : m.β 2 e ≠ 0 := by rw [h]; exact he'
+  have hi := hwf.invol 2 (by omega) (by omega) e he.2.1 h2
+  unfold edgeOf at hc hc'
+  have a : ¬ (m.β 2 e ≠ 0 ∧ m.β 2 e < e) := by
+    intro hh; rw [if_pos hh] at hc; exact hi.2 hc
+  have b : ¬ (m.β 2 e' ≠ 0 ∧ m.β 2 e' < e') := by
+    intro hh; rw [if_pos hh] at hc'
+    rw [← h, hi.1] at hc'
+    exact hi.2 hc'.symm
+  rw [← h, hi.1] at b
+  have : ¬ (e ≠ 0 ∧ e < m.β 2 e) := b
+  have := he.1
+  have := hi.2
+  omega
+
+/-- **C16, steps 2 + 3 on the map — every written slot is a vertex**: for every iteration order `keys` of the `HashMap`
+    (distinct in-use canonical darts with a successor, among them the edge of every written slot), when
+    `intersection_darts` succeeds the map is well formed, every dart keeps what it carried, and the slot `K` holding
+    `(d, t)` has its dart `res[K]` starting at the point at position `t` between the two end points of `d` -/
+theorem C16_steps23_carries {m0 m3 : Map Val} {slots : List Slot} {keys res : List Nat} (hwf : WF 3 m0) (hk : keys.Nodup)
+    (hkeys : ∀ e, e ∈ keys → C01.InUse m0 e ∧ m0.β 1 e ≠ 0 ∧ edgeOf (m0.β 2) e = e)
+    (hall : ∀ (K d : Nat) (t : Rat), slots[K]? = some (some (d, t)) → edgeOf (m0.β 2) d ∈ keys)
+    (hrun : stepsTwoThree m0 slots keys = (res, .ok (), m3)) :
+    WF 3 m3 ∧ ((∀ d, m0.att sBd d = none) → ∀ d, m3.att sBd d = none) ∧ (∀ x P, Carries m0 x P → Carries m3 x P) ∧
+    ∀ (K d : Nat) (t : Rat), slots[K]? = some (some (d, t)) → C01.InUse m0 d → m0.β 1 d ≠ 0 → ∀ v1 v2, Carries m0 d v1 →
+      Carries m0 (m0.β 1 d) v2 → ∃ x, res[K]? = some x ∧ Carries m3 x (placeVal v1 v2 (some t)) := by
+  unfold stepsTwoThree at hrun
+  simp only at hrun
+  set hs := hitsOf (m0.β 2) slots with hhs
+  set gs := groupsOf hs keys with hgs
+  set tot := 2 * (gs.map (·.2.length)).sum with htot
+  have hsz := hwf.toSized
+  have hfst : (m0.addFreeDarts tot).1 = m0.n := rfl
+  have hn1 : (m0.addFreeDarts tot).2.n = m0.n + tot := rfl
+  rw [hfst] at hrun
+  simp only [Prod.mk.injEq] at hrun
+  obtain ⟨hres, hout, hm3⟩ := hrun
+  have hr : run (insertIntersections (m0.addFreeDarts tot).2.n (gs.zip (slicesFrom m0.n (gs.map (·.2.length)))))
+      (m0.addFreeDarts tot).2 = (.ok (), m3) := Prod.ext hout hm3
+  have w1 : WF 3 (m0.addFreeDarts tot).2 := hwf.addFreeDarts (by omega) tot
+  have eβ : ∀ i d, i < 3 → d < m0.n → (m0.addFreeDarts tot).2.β i d = m0.β i d := by
+    intro i d hi hd; rw [addFreeDarts_β hsz tot i d hi, if_pos hd]
+  have iu1 : ∀ {d}, C01.InUse m0 d → C01.InUse (m0.addFreeDarts tot).2 d := by
+    intro d h
+    exact ⟨h.1, by rw [hn1]; have := h.2.1; omega, by rw [addFreeDarts_unused hsz, if_pos h.2.1]; exact h.2.2⟩
+  have hmemg : ∀ g, g ∈ gs → g.1 ∈ keys ∧ g.2 = groupOf hs g.1 := by
+    intro g hg
+    rw [hgs] at hg; unfold groupsOf at hg
+    obtain ⟨e, he, rfl⟩ := List.mem_map.1 hg
+    exact ⟨he, rfl⟩
+  have hmap1 : gs.map (·.1) = keys := by
+    rw [hgs]; unfold groupsOf; rw [List.map_map]
+    exact List.map_id' _
+  obtain ⟨w3, n3, _, att3, frame, resall⟩ := insertIntersections_carries gs _ m3 m0.n w1
+    (by intro d hd hdn
+        refine ⟨by rw [addFreeDarts_unused hsz, if_neg (by omega)], fun i hi => ?_⟩
+        rw [addFreeDarts_β hsz tot i d hi, if_neg (by omega)])
+    (by rw [hn1]) hsz.npos
+    (by intro g hg
+        obtain ⟨a, b, _⟩ := hkeys g.1 (hmemg g hg).1
+        exact ⟨iu1 a, a.2.1, by rw [eβ 1 _ (by omega) a.2.1]; exact b⟩)
+    (by rw [hmap1]; exact hk)
+    (by intro g hg g' hg'
+        obtain ⟨a, _, c⟩ := hkeys g.1 (hmemg g hg).1
+        obtain ⟨a', _, c'⟩ := hkeys g'.1 (hmemg g' hg').1
+        rw [eβ 2 _ (by omega) a.2.1]
+        exact canonical_not_opposite hwf a a'.1 c c') hr
+  refine ⟨w3, fun hnt d => by rw [att3 sBd d (by decide)]; exact addFreeDarts_att_none sBd hnt tot d,
+    fun x P hc => frame x P hc.1.2.1 (carries_addFreeDarts hwf tot hc), ?_⟩
+  intro K d t hK hd hb1 v1 v2 c1 c2
+  -- the hit of the slot
+  set e := edgeOf (m0.β 2) d with he
+  set h : Hit := { idx := K, t := if e ≠ d then 1 - t else t, dart := d } with hh
+  have hx : (e, h) ∈ hs := (C16_hits_slot_numbers (m0.β 2) slots _).2 ⟨K, d, t, hK, rfl⟩
+  have hek : e ∈ keys := hall K d t hK
+  obtain ⟨j, hj⟩ := List.getElem?_of_mem hek
+  obtain ⟨i, hi⟩ := List.getElem?_of_mem (mem_groupOf.2 hx)
+  have hval := intersection_ids_at (base := m0.n) (hits_idx_nodup (m0.β 2) slots) hk slots.length
+    (fun x hx' => hits_idx_lt (m0.β 2) slots hx') hx hj hi
+  rw [← hgs, hres] at hval
+  have hgj : gs[j]? = some (e, groupOf hs e) := by
+    rw [hgs]; unfold groupsOf; rw [List.getElem?_map, hj]; rfl
+  obtain ⟨ie, eb1, ecan⟩ := hkeys e hek
+  by_cases hed : e = d
+  · -- the identifier dart of the edge was hit
+    have := (resall j _ hgj v1 v2 (by rw [hed]; exact carries_addFreeDarts hwf tot c1)
+      (by rw [hed, eβ 1 _ (by omega) hd.2.1]; exact carries_addFreeDarts hwf tot c2) i h hi).1
+    refine ⟨_, hval, ?_⟩
+    have ht : h.t = t := by rw [hh]; simp only; rw [if_neg (fun hne => hne hed)]
+    have hdart : h.dart = e := by rw [hh]; exact hed.symm
+    rw [if_pos hdart]
+    rw [ht] at this
+    exact this
+  · -- the opposite dart was hit: `e = β2 d`, positions run the other way
+    have heb : e = m0.β 2 d ∧ m0.β 2 d ≠ 0 := by
+      have : edgeOf (m0.β 2) d = e := he.symm
+      unfold edgeOf at this
+      by_cases hc : m0.β 2 d ≠ 0 ∧ m0.β 2 d < d
+      · rw [if_pos hc] at this; exact ⟨this.symm, hc.1⟩
+      · rw [if_neg hc] at this; exact absurd this.symm hed
+    have hi2 := hwf.invol 2 (by omega) (by omega) d hd.2.1 heb.2
+    have hb2e : m0.β 2 e = d := by rw [heb.1]; exact hi2.1
+    -- the end points of `e` are those of `d`, swapped
+    have ce1 : Carries m0 e v2 := by
+      refine ⟨ie, ?_⟩
+      have := cellId_b1b2 hwf ie.1 ie.2.1 (by rw [hb2e]; exact hb1)
+      rw [hb2e] at this
+      rw [← this]; exact c2.2
+    have ce2 : Carries m0 (m0.β 1 e) v1 := by
+      refine ⟨inUse_image hwf (by omega) ie.2.1 eb1, ?_⟩
+      have := cellId_b1b2 hwf hd.1 hd.2.1 (by rw [← heb.1]; exact eb1)
+      rw [← heb.1] at this
+      rw [this]; exact c1.2
+    have := (resall j _ hgj v2 v1 (carries_addFreeDarts hwf tot ce1)
+      (by rw [eβ 1 _ (by omega) ie.2.1]; exact carries_addFreeDarts hwf tot ce2) i h hi).2
+      (by rw [eβ 2 _ (by omega) ie.2.1, hb2e]; exact hd.1)
+    refine ⟨_, hval, ?_⟩
+    have ht : h.t = 1 - t := by rw [hh]; simp only; rw [if_pos hed]
+    have hdart : h.dart ≠ e := by rw [hh]; exact fun e' => hed e'.symm
+    rw [if_neg hdart]
+    rw [ht, placeVal_flip] at this
+    exact this
+
+/-! ## step 5 keeps the vertices: `build_base_edge` -/
+
+theorem beta_oob {m : Map Val} (hwf : WF 3 m) {i d : Nat} (hi : i < 3) (hd : m.n ≤ d) : m.β i d = 0 := by
+  unfold Map.β
+  rw [rd_oob _ d (by rw [hwf.toSized.row i hi]; exact hd)]; rfl
+
+/-- a free dart is nobody's image -/
+theorem free_not_image {m : Map Val} (hwf : WF 3 m) {a : Nat} (ha0 : a ≠ 0) (hfree : ∀ i, i < 3 → m.β i a = 0)
+    (i : Nat) (hi : i < 3) (d : Nat) : m.β i d ≠ a := by
+  intro h
+  by_cases hd : d < m.n
+  · have hne : m.β i d ≠ 0 := by rw [h]; exact ha0
+    rcases (by omega : i = 0 ∨ i = 1 ∨ i = 2) with rfl | rfl | rfl
+    · have := hwf.inv10 d hd hne
+      rw [h, hfree 1 (by omega)] at this
+      rw [← this, hwf.null 0 (by omega)] at h; exact ha0 h.symm
+    · have := hwf.inv01 d hd hne
+      rw [h, hfree 0 (by omega)] at this
+      rw [← this, hwf.null 1 (by omega)] at h; exact ha0 h.symm
+    · have := (hwf.invol 2 (by omega) (by omega) d hd hne).1
+      rw [h, hfree 2 (by omega)] at this
+      rw [← this, hwf.null 2 (by omega)] at h; exact ha0 h.symm
+  · rw [beta_oob hwf hi (Nat.le_of_not_lt hd)] at h; exact ha0 h.symm
+
+/-- **C16, step 5 — `build_base_edge` keeps the vertices**: a dart below the two new darts starts at the same vertex
+    (same identifier) as before, and the coordinate storage is untouched: it keeps what it carries -/
+theorem carries_buildBaseEdge {m m' : Map Val} {start stop dNew b2dNew : Nat} (hwf : WF 3 m)
+    (hs : C01.InUse m start) (he : C01.InUse m stop) (hd1 : C01.InUse m dNew) (hd2 : C01.InUse m b2dNew)
+    (hf1 : ∀ i, i < 3 → m.β i dNew = 0) (hf2 : ∀ i, i < 3 → m.β i b2dNew = 0) (hne : dNew ≠ b2dNew)
+    (hr : run (buildBaseEdge start stop dNew b2dNew) m = (.ok (), m'))
+    {y s : Nat} {P : Val} (hya : y < dNew) (hyb : y < b2dNew) (hc : CarriesS m s y P) : CarriesS m' s y P := by
+  obtain ⟨w', n', u', a', _, hb1s, hb0e, e1, e2, e3, e4, e5, e6, e7⟩ :=
+    C16_buildBaseEdge_spec hwf hs he hd1 hd2 hf1 hf2 hne hr
+  obtain ⟨⟨y0, ylt, yu⟩, hat⟩ := hc
+  set p := m.β 1 start with hp
+  set q := m.β 0 stop with hq
+  have na := free_not_image hwf hd1.1 hf1
+  have nb := free_not_image hwf hd2.1 hf2
+  have hq1 : m.β 1 q = stop := hwf.inv10 stop he.2.1 hb0e
+  have hp0 : m.β 0 p = start := hwf.inv01 start hs.2.1 hb1s
+  have sa : start ≠ dNew := fun e => hb1s (by rw [hp, e]; exact hf1 1 (by omega))
+  have sb : start ≠ b2dNew := fun e => hb1s (by rw [hp, e]; exact hf2 1 (by omega))
+  have ta : stop ≠ dNew := fun e => hb0e (by rw [hq, e]; exact hf1 0 (by omega))
+  have tb : stop ≠ b2dNew := fun e => hb0e (by rw [hq, e]; exact hf2 0 (by omega))
+  have pa : p ≠ dNew := na 1 (by omega) start
+  have pb : p ≠ b2dNew := nb 1 (by omega) start
+  have qa : q ≠ dNew := na 0 (by omega) stop
+  have qb : q ≠ b2dNew := nb 0 (by omega) stop
+  -- β0 of the result at the four darts
+  have slt' : start < m'.n := by rw [n']; exact hs.2.1
+  have z1 : m'.β 0 dNew = start := by have := w'.inv01 start slt' (by rw [e1]; exact hd1.1); rwa [e1] at this
+  have z2 : m'.β 0 stop = dNew := by
+    have := w'.inv01 dNew (by rw [n']; exact hd1.2.1) (by rw [e2]; exact he.1); rwa [e2] at this
+  have qlt : q < m.n := hwf.range 0 (by omega) stop he.2.1
+  have z3 : m'.β 0 b2dNew = q := by
+    have := w'.inv01 q (by rw [n']; exact qlt) (by rw [e3]; exact hd2.1); rwa [e3] at this
+  have z4 : m'.β 0 p = b2dNew := by
+    have := w'.inv01 b2dNew (by rw [n']; exact hd2.2.1) (by rw [e4]; exact hb1s); rwa [e4] at this
+  have b2old : ∀ d, d ≠ dNew → d ≠ b2dNew → m'.β 2 d = m.β 2 d := fun d h1 h2 => by rw [e5, if_neg h1, if_neg h2]
+  have b2a : m'.β 2 dNew = b2dNew := by rw [e5, if_pos rfl]
+  have b2b : m'.β 2 b2dNew = dNew := by rw [e5, if_neg hne.symm, if_pos rfl]
+  have null1 := hwf.null 1 (by omega)
+  have null2 := hwf.null 2 (by omega)
+  have null0 := hwf.null 0 (by omega)
+  have b10 : m'.β 1 0 = 0 := by
+    rw [e6 0 (Ne.symm hs.1) (Ne.symm hb0e) (Ne.symm hd1.1) (Ne.symm hd2.1)]; exact null1
+  have b00 : m'.β 0 0 = 0 := by
+    rw [e7 0 (Ne.symm he.1) (Ne.symm hb1s) (Ne.symm hd1.1) (Ne.symm hd2.1)]; exact null0
+  have b20 : m'.β 2 0 = 0 := by rw [b2old 0 (Ne.symm hd1.1) (Ne.symm hd2.1)]; exact null2
+  have mem1 : ∀ x, m.β 1 (m.β 2 x) ∈ C03.g2 m .vertex x := fun x => by simp [C03.g2]
+  have mem2 : ∀ x, m.β 2 (m.β 0 x) ∈ C03.g2 m .vertex x := fun x => by simp [C03.g2]
+  have mem1' : ∀ x, m'.β 1 (m'.β 2 x) ∈ C03.g2 m' .vertex x := fun x => by simp [C03.g2]
+  have mem2' : ∀ x, m'.β 2 (m'.β 0 x) ∈ C03.g2 m' .vertex x := fun x => by simp [C03.g2]
+  -- (i) what is reachable afterwards was reachable, or is one of the two new darts
+  have dir1 : ∀ x, Reach (C03.g2 m' .vertex) y x →
+      x = 0 ∨ (x ≠ dNew ∧ x ≠ b2dNew ∧ Reach (C03.g2 m .vertex) y x) ∨
+      (x = dNew ∧ Reach (C03.g2 m .vertex) y p) ∨ (x = b2dNew ∧ Reach (C03.g2 m .vertex) y stop) := by
+    intro x hx
+    refine C14.reach_vertex_closed (m := m') (fun x => x = 0 ∨ (x ≠ dNew ∧ x ≠ b2dNew ∧ Reach (C03.g2 m .vertex) y x) ∨
+      (x = dNew ∧ Reach (C03.g2 m .vertex) y p) ∨ (x = b2dNew ∧ Reach (C03.g2 m .vertex) y stop)) (Or.inl rfl) ?_
+      (Or.inr (Or.inl ⟨by omega, by omega, Reach.refl y⟩)) hx
+    -- an old value reached in the old map, repackaged
+    have old : ∀ z, Reach (C03.g2 m .vertex) y z → z ≠ dNew → z ≠ b2dNew →
+        (z = 0 ∨ (z ≠ dNew ∧ z ≠ b2dNew ∧ Reach (C03.g2 m .vertex) y z) ∨
+        (z = dNew ∧ Reach (C03.g2 m .vertex) y p) ∨ (z = b2dNew ∧ Reach (C03.g2 m .vertex) y stop)) :=
+      fun z hz h1 h2 => Or.inr (Or.inl ⟨h1, h2, hz⟩)
+    intro x hS
+    rcases hS with rfl | ⟨xa, xb, R⟩ | ⟨rfl, R⟩ | ⟨rfl, R⟩
+    · exact ⟨Or.inl (by rw [b20, b10]), Or.inl (by rw [b00, b20])⟩
+    · constructor
+      · -- β1' (β2' x)
+        rw [b2old x xa xb]
+        by_cases h1 : m.β 2 x = start
+        · rw [h1, e1]; exact Or.inr (Or.inr (Or.inl ⟨rfl, Reach.tail R (by rw [hp, ← h1]; exact mem1 x)⟩))
+        · by_cases h2 : m.β 2 x = q
+          · rw [h2, e3]; exact Or.inr (Or.inr (Or.inr ⟨rfl, Reach.tail R (by rw [← hq1, ← h2]; exact mem1 x)⟩))
+          · rw [e6 _ h1 h2 (na 2 (by omega) x) (nb 2 (by omega) x)]
+            exact old _ (Reach.tail R (mem1 x)) (na 1 (by omega) _) (nb 1 (by omega) _)
+      · -- β2' (β0' x)
+        by_cases h1 : x = stop
+        · rw [h1, z2, b2a]; exact Or.inr (Or.inr (Or.inr ⟨rfl, by rw [← h1]; exact R⟩))
+        · by_cases h2 : x = p
+          · rw [h2, z4, b2b]; exact Or.inr (Or.inr (Or.inl ⟨rfl, by rw [← h2]; exact R⟩))
+          · rw [e7 x h1 h2 xa xb, b2old _ (na 0 (by omega) x) (nb 0 (by omega) x)]
+            exact old _ (Reach.tail R (mem2 x)) (na 2 (by omega) _) (nb 2 (by omega) _)
+    · constructor
+      · rw [b2a, e4]; exact old _ R pa pb
+      · rw [z1, b2old _ sa sb]
+        refine old _ (Reach.tail R ?_) (na 2 (by omega) _) (nb 2 (by omega) _)
+        have := mem2 p; rw [hp0] at this; exact this
+    · constructor
+      · rw [b2b, e2]; exact old _ R ta tb
+      · rw [z3, b2old _ qa qb]
+        exact old _ (Reach.tail R (mem2 stop)) (na 2 (by omega) _) (nb 2 (by omega) _)
+  -- (ii) what was reachable still is
+  have dir2 : ∀ x, Reach (C03.g2 m .vertex) y x → x ≠ 0 → Reach (C03.g2 m' .vertex) y x := by
+    intro x hx
+    induction hx with
+    | refl => intro _; exact Reach.refl y
+    | @tail b' c R hcm ih =>
+        intro hc0
+        simp only [C03.g2, List.mem_cons, List.not_mem_nil, or_false] at hcm
+        have hb0' : b' ≠ 0 := by
+          intro e0; rcases hcm with h | h
+          · rw [h, e0, null2, null1] at hc0; exact hc0 rfl
+          · rw [h, e0, null0, null2] at hc0; exact hc0 rfl
+        have R' := ih hb0'
+        -- `b'` is an old dart
+        have ba : b' ≠ dNew := by
+          intro e
+          have : Reach (C03.g2 m .vertex) y dNew := by rw [← e]; exact R
+          cases this with
+          | refl => omega
+          | tail _ hm =>
+              simp only [C03.g2, List.mem_cons, List.not_mem_nil, or_false] at hm
+              rcases hm with h | h
+              · exact na 1 (by omega) _ h.symm
+              · exact na 2 (by omega) _ h.symm
+        have bb : b' ≠ b2dNew := by
+          intro e
+          have : Reach (C03.g2 m .vertex) y b2dNew := by rw [← e]; exact R
+          cases this with
+          | refl => omega
+          | tail _ hm =>
+              simp only [C03.g2, List.mem_cons, List.not_mem_nil, or_false] at hm
+              rcases hm with h | h
+              · exact nb 1 (by omega) _ h.symm
+              · exact nb 2 (by omega) _ h.symm
+        rcases hcm with rfl | rfl
+        · by_cases h1 : m.β 2 b' = start
+          · -- through the first new dart
+            have s1 : Reach (C03.g2 m' .vertex) y dNew := by
+              have := mem1' b'; rw [b2old b' ba bb, h1, e1] at this; exact Reach.tail R' this
+            have := mem1' dNew; rw [b2a, e4] at this
+            rw [h1]; exact Reach.tail s1 this
+          · by_cases h2 : m.β 2 b' = q
+            · have s1 : Reach (C03.g2 m' .vertex) y b2dNew := by
+                have := mem1' b'; rw [b2old b' ba bb, h2, e3] at this; exact Reach.tail R' this
+              have := mem1' b2dNew; rw [b2b, e2] at this
+              rw [h2, hq1]; exact Reach.tail s1 this
+            · have := mem1' b'
+              rw [b2old b' ba bb, e6 _ h1 h2 (na 2 (by omega) b') (nb 2 (by omega) b')] at this
+              exact Reach.tail R' this
+        · by_cases h1 : b' = stop
+          · have s1 : Reach (C03.g2 m' .vertex) y b2dNew := by
+              have := mem2' b'; rw [h1, z2, b2a] at this; rw [h1] at R'; exact Reach.tail R' this
+            have := mem2' b2dNew; rw [z3, b2old _ qa qb] at this
+            rw [h1]; exact Reach.tail s1 this
+          · by_cases h2 : b' = p
+            · have s1 : Reach (C03.g2 m' .vertex) y dNew := by
+                have := mem2' b'; rw [h2, z4, b2b] at this; rw [h2] at R'; exact Reach.tail R' this
+              have := mem2' dNew; rw [z1, b2old _ sa sb] at this
+              rw [h2, hp0]; exact Reach.tail s1 this
+            · have := mem2' b'
+              rw [e7 b' h1 h2 ba bb, b2old _ (na 0 (by omega) b') (nb 0 (by omega) b')] at this
+              exact Reach.tail R' this
+  -- the identifier: the smallest dart of the vertex
+  have ylt' : y < m'.n := by rw [n']; exact ylt
+  have s' := C03.cellId_spec w' (pol := .vertex) trivial y0 ylt'
+  have s := C03.cellId_spec hwf (pol := .vertex) trivial y0 ylt
+  have hid : C03.cellId m' .vertex y = C03.cellId m .vertex y := by
+    apply Nat.le_antisymm
+    · apply s'.2
+      rw [C03.mem_orb w' (pol := .vertex) trivial y0 ylt']
+      have := (C03.mem_orb hwf (pol := .vertex) trivial y0 ylt _).1 s.1
+      exact ⟨this.1, dir2 _ this.2 this.1⟩
+    · have hm := (C03.mem_orb w' (pol := .vertex) trivial y0 ylt' _).1 s'.1
+      have hself : C03.cellId m' .vertex y ≤ y := s'.2 y (C03.self_mem_orb w' (pol := .vertex) trivial y0 ylt')
+      rcases dir1 _ hm.2 with h | ⟨_, _, R⟩ | ⟨h, _⟩ | ⟨h, _⟩
+      · exact absurd h hm.1
+      · exact s.2 _ ((C03.mem_orb hwf (pol := .vertex) trivial y0 ylt _).2 ⟨hm.1, R⟩)
+      · omega
+      · omega
+  exact ⟨⟨y0, ylt', by unfold Map.unused; rw [u']; exact yu⟩, by rw [hid, a']; exact hat⟩
+
+/-! ## step 5 keeps the vertices: one iteration, the whole loop -/
+
+theorem cellId_congr_b {m m' : Map Val} (hb : m'.b = m.b) (hn : m'.n = m.n) (pol : Policy) (d : Nat) :
+    C03.cellId m' pol d = C03.cellId m pol d := by
+  have hβ : m'.β = m.β := by funext i x; unfold Map.β; rw [hb]
+  have hg : C03.g2 m' pol = C03.g2 m pol := by
+    funext x; cases pol <;> simp only [C03.g2, hβ]
+  unfold C03.cellId C03.orb
+  rw [hg, hn]
+
+theorem markBoundary_attrs (stop : Nat) : ∀ (fuel d : Nat) (m m' : Map Val), run (markBoundary stop fuel d) m = (.ok (), m') →
+    m'.b = m.b ∧ m'.n = m.n ∧ m'.u = m.u ∧ ∀ s x, s ≠ sBd → m'.att s x = m.att s x := by
+  intro fuel
+  induction fuel with
+  | zero => intro d m m' h; simp [markBoundary, run] at h
+  | succ f ih =>
+      intro d m m' h
+      unfold markBoundary at h
+      by_cases hds : d = stop
+      · rw [if_pos hds] at h
+        simp only [Prog.pure_eq, run_ret, Prod.mk.injEq] at h
+        rw [← h.2]; exact ⟨rfl, rfl, rfl, fun _ _ _ => rfl⟩
+      · rw [if_neg hds] at h
+        simp only [Prog.bind_eq] at h
+        have h := C14.rA_bind_ok h
+        rw [run_wA] at h
+        by_cases ok1 : m.okA sBd d = true
+        · simp only [ok1, if_true] at h
+          obtain ⟨_, h⟩ := C14.rB_bind_ok h
+          have h := C14.rA_bind_ok h
+          rw [run_wA] at h
+          by_cases ok2 : (m.setA sBd d (some bdLeft)).okA sBd ((m.setA sBd d (some bdLeft)).β 2 d) = true
+          · simp only [ok2, if_true] at h
+            obtain ⟨_, h⟩ := C14.rB_bind_ok h
+            obtain ⟨a, b, c, e⟩ := ih _ _ _ h
+            refine ⟨a, b, c, ?_⟩
+            intro s x hs
+            rw [e s x hs, Map.att_setA, if_neg (fun hh => hs hh.1.symm), Map.att_setA, if_neg (fun hh => hs hh.1.symm)]
+          · simp [ok2] at h
+        · simp [ok1] at h
+
+/-- **C16, step 5 — one iteration keeps the vertices below its block**: a dart below `next` keeps its vertex identifier and
+    the value of that slot in every storage but `Boundary` (coordinates, anchors) -/
+theorem carriesS_insertOneEdge {m m' : Map Val} {next i : Nat} {ha : Bool} {e : MEdge} (I : EInv m next)
+    (hs : C01.InUse m e.start) (he : C01.InUse m e.stop) (hroom : next + (2 + 2 * e.inter.length) ≤ m.n)
+    (hr : run (insertOneEdge m.n ha i e (List.range' next (2 + 2 * e.inter.length))) m = (.ok (), m'))
+    {s y : Nat} {P : Val} (hs9 : s ≠ sBd) (hy : y < next) (hc : CarriesS m s y P) : CarriesS m' s y P := by
+  have hwf := I.wf
+  set k := e.inter.length with hk
+  unfold insertOneEdge at hr
+  simp only [Prog.bind_eq] at hr
+  rw [rg' (by omega : 0 < 2 + 2 * k), rg' (by omega : 1 < 2 + 2 * k), Nat.add_zero] at hr
+  obtain ⟨_, m1, h1, hrA⟩ := run_bind_ok hr
+  clear hr
+  obtain ⟨u0, f0, t0⟩ := I.fresh next (Nat.le_refl _) (by omega)
+  obtain ⟨u1, f1, t1⟩ := I.fresh (next + 1) (by omega) (by omega)
+  have id0 : C01.InUse m next := ⟨by have := I.pos; omega, by omega, u0⟩
+  have id1 : C01.InUse m (next + 1) := ⟨by omega, by omega, u1⟩
+  obtain ⟨w1, n1, uu1, a1, _, hb1s, hb0e, e1, e2, e3, e4, e5, e6, e7⟩ :=
+    C16_buildBaseEdge_spec hwf hs he id0 id1 f0 f1 (by omega) h1
+  have c1 : CarriesS m1 s y P := carries_buildBaseEdge hwf hs he id0 id1 f0 f1 (by omega) h1 hy (by omega) hc
+  have notFresh : ∀ d, d < m.n → (∃ j, j < 3 ∧ m.β j d ≠ 0) → d < next := by
+    intro d hd ⟨j, hj, hne⟩
+    rcases Nat.lt_or_ge d next with h' | h'
+    · exact h'
+    · exact absurd ((I.fresh d h' hd).2.1 j hj) hne
+  have hstart : e.start < next := notFresh _ hs.2.1 ⟨1, by omega, hb1s⟩
+  have hstop : e.stop < next := notFresh _ he.2.1 ⟨0, by omega, hb0e⟩
+  have hb1s_lt : m.β 1 e.start < m.n := hwf.range 1 (by omega) _ hs.2.1
+  have hb0e_lt : m.β 0 e.stop < m.n := hwf.range 0 (by omega) _ he.2.1
+  have hb1s' : m.β 1 e.start < next := notFresh _ hb1s_lt ⟨0, by omega, by rw [hwf.inv01 _ hs.2.1 hb1s]; exact hs.1⟩
+  have hb0e' : m.β 0 e.stop < next := notFresh _ hb0e_lt ⟨1, by omega, by rw [hwf.inv10 _ he.2.1 hb0e]; exact he.1⟩
+  -- the darts of the block beyond the base edge are still free
+  have free1 : ∀ d, next + 2 ≤ d → d < m.n → ∀ j, j < 3 → m1.β j d = 0 := by
+    intro d hd hdn j hj
+    have hf := (I.fresh d (by omega) hdn).2.1
+    rcases (by omega : j = 0 ∨ j = 1 ∨ j = 2) with rfl | rfl | rfl
+    · rw [e7 d (by omega) (by omega) (by omega) (by omega)]; exact hf 0 (by omega)
+    · rw [e6 d (by omega) (by omega) (by omega) (by omega)]; exact hf 1 (by omega)
+    · rw [e5 d, if_neg (by omega), if_neg (by omega)]; exact hf 2 (by omega)
+  obtain ⟨_, m3, h3, hrB⟩ := run_bind_ok hrA
+  obtain ⟨_, hmark⟩ := C14.rB_bind_ok hrB
+  clear hrA hrB
+  obtain ⟨mb, mn, mu, matt⟩ := markBoundary_attrs _ _ _ _ _ hmark
+  -- it is enough to reach the map before `mark_boundary`
+  suffices c3 : CarriesS m3 s y P by
+    obtain ⟨⟨y0, ylt, yu⟩, hat⟩ := c3
+    refine ⟨⟨y0, by rw [mn]; exact ylt, by unfold Map.unused; rw [mu]; exact yu⟩, ?_⟩
+    rw [cellId_congr_b mb mn, matt s _ hs9]; exact hat
+  by_cases hemp : e.inter.isEmpty = true
+  · rw [if_pos hemp] at h3
+    simp only [Prog.pure_eq, run_ret, Prod.mk.injEq] at h3
+    rw [← h3.2]; exact c1
+  · rw [if_neg hemp] at h3
+    have hkpos : 0 < k := by
+      rw [hk]; cases hi : e.inter with
+      | nil => rw [hi] at hemp; simp at hemp
+      | cons _ _ => simp
+    obtain ⟨eid, heid, h3a⟩ := ro_bind_ok (readOnly_edgeId2 (X := Val) next) h3
+    obtain ⟨_, m2, h2, h3b⟩ := run_bind_ok h3a
+    obtain ⟨_, h3c⟩ := C14.rB_bind_ok h3b
+    clear h3 h3a h3b
+    have b2n : m1.β 2 next = next + 1 := by rw [e5, if_pos rfl]
+    have heq : eid = next := by
+      rw [edgeId2_min heid, b2n, if_neg (by omega)]; exact Nat.min_eq_right (by omega)
+    subst heq
+    have ieid : C01.InUse m1 eid := ⟨id0.1, by rw [n1]; exact id0.2.1, by unfold Map.unused; rw [uu1]; exact id0.2.2⟩
+    have hslice : (List.range' eid (2 + 2 * k)).drop 2 = List.range' (eid + 2) (2 * k) := by
+      rw [List.drop_range']; congr 1 <;> omega
+    rw [hslice, ← n1] at h2
+    have hmem : ∀ d, d ∈ List.range' (eid + 2) (2 * k) → eid + 2 ≤ d ∧ d < eid + 2 + 2 * k := by
+      intro d hd; rw [List.mem_range'_1] at hd; exact hd
+    have hlive : ∀ d, d ∈ List.range' (eid + 2) (2 * k) → m1.unused d = false := by
+      intro d hd
+      obtain ⟨a, b⟩ := hmem d hd
+      unfold Map.unused; rw [uu1]
+      exact (I.fresh d (by omega) (by omega)).1
+    have hlen : (e.inter.map fun _ => (1 / 2 : Rat)).length = k := by rw [List.length_map]
+    have c2 : CarriesS m2 s y P := carries_insert_frame hlen w1 ieid hlive h2 (Or.inl (by omega)) c1
+    have hsplit : List.range' (eid + 2) (2 * k) = List.range' (eid + 2) k ++ List.range' (eid + 2 + k) k := by
+      rw [show 2 * k = k + k by omega, ← List.range'_append, Nat.one_mul]
+    have htake : (List.range' (eid + 2) (2 * k)).take (e.inter.map fun _ => (1 / 2 : Rat)).length = List.range' (eid + 2) k := by
+      rw [hlen, hsplit, List.take_left' (by rw [List.length_range'])]
+    have hdrop : (List.range' (eid + 2) (2 * k)).drop (e.inter.map fun _ => (1 / 2 : Rat)).length = List.range' (eid + 2 + k) k := by
+      rw [hlen, hsplit, List.drop_left' (by rw [List.length_range'])]
+    have hfhnd : ((List.range' (eid + 2) (2 * k)).take (e.inter.map fun _ => (1 / 2 : Rat)).length).Nodup := by
+      rw [htake]; exact List.nodup_range'
+    obtain ⟨w2, hres⟩ := C14.C14_insertVertices_beta_structure m1 m2 eid _ _ w1 ieid hlive hfhnd
+      (fun _ => List.nodup_range') h2
+    have inv2 := C14.insertVertices_inv m1 m2 eid _ _ w1 ieid hlive (fun _ => List.nodup_range') h2
+    have hdist := C14.C14_new_darts_distinct_vertices m1 m2 eid _ _ w1 ieid hlive hfhnd (fun _ => List.nodup_range') h2
+    rw [htake] at hres hdist
+    rw [hdrop] at hres
+    set fh := List.range' (eid + 2) k with hfh
+    set sh := List.range' (eid + 2 + k) k with hsh
+    obtain ⟨hch, _⟩ := hres.side1
+    have hwalk : walkB1 m2 (m2.β 1 eid) e.inter.length = fh := by
+      have := walk_of_chain fh eid hch
+      rw [hfh, List.length_range'] at this
+      rw [← hk]; exact this
+    have hnd2 : ((walkB1 m2 (m2.β 1 eid) e.inter.length).map (fun x => (run (vertexId2 m.n x) m2).1)).Nodup := by
+      rw [hwalk]
+      have hz : ((e.inter.map fun _ => (1 / 2 : Rat)).zip fh).map (fun x => (run (vertexId2 m1.n x.2) m2).1) =
+          fh.map (fun x => (run (vertexId2 m1.n x) m2).1) := by
+        have : (fun x : Rat × Nat => (run (vertexId2 m1.n x.2) m2).1) =
+            (fun x : Nat => (run (vertexId2 m1.n x) m2).1) ∘ Prod.snd := rfl
+        rw [this, ← List.map_map, List.map_snd_zip (by rw [hlen, hfh, List.length_range'])]
+      rw [hz, n1] at hdist
+      exact hdist
+    obtain ⟨hb3, _, hfr⟩ := replaceInter_att m.n ha i _ _ m2 m3 h3c hnd2
+    rw [hwalk] at hfr
+    have st3 := replaceInter_eff m.n ha i _ _ _ _ h3c
+    obtain ⟨⟨y0, ylt2, yu2⟩, hat2⟩ := c2
+    have hn2 : m2.n = m.n := by rw [inv2.n_eq, n1]
+    refine ⟨⟨y0, by rw [st3.1.n]; exact ylt2, by unfold Map.unused; rw [st3.1.u]; exact yu2⟩, ?_⟩
+    rw [cellId_congr_b hb3 st3.1.n, hfr s _ (Or.inr ?_)]
+    · exact hat2
+    -- the vertex of an intermediate dart contains new darts only
+    intro x hx hrun
+    have hxr := List.mem_range'_1.1 (by rw [hfh] at hx; exact hx)
+    have hx0 : x ≠ 0 := by omega
+    have hxlt : x < m2.n := by rw [hn2]; omega
+    have hvid := (C03.C03_vertexId2_min w2 hx0 hxlt).1
+    rw [hn2] at hvid
+    rw [hvid] at hrun
+    simp only [Out.ok.injEq] at hrun
+    have hreach := ((C03.C03_same_id_iff_same_cell w2 (pol := .vertex) trivial hx0 hxlt y0 ylt2).1).1 hrun
+    have hxt : x = fh.getD (x - (eid + 2)) 0 := by rw [hfh, rg' (by omega)]; omega
+    rw [hxt] at hreach
+    have := C14.new_vertex_darts m1 m2 eid fh sh w1 w2 inv2.n_eq ieid.2.1
+      (fun z hz => by have := List.mem_range'_1.1 (by rw [hfh] at hz; exact hz); rw [n1]; exact ⟨by omega, by omega⟩)
+      (fun z hz j hj => by have := List.mem_range'_1.1 (by rw [hfh] at hz; exact hz); exact free1 z (by omega) (by omega) j hj)
+      (fun _ => ⟨by rw [hfh, hsh, List.length_range', List.length_range'], by rw [b2n, n1]; omega,
+        fun z hz => by have := List.mem_range'_1.1 (by rw [hsh] at hz; exact hz); rw [n1]; exact ⟨by omega, by omega⟩⟩)
+      hres (x - (eid + 2)) (by rw [hfh, List.length_range']; omega) y hreach
+    rcases this with h | h | ⟨_, h⟩
+    · rw [← hxt] at h; omega
+    · exact y0 h
+    · -- a dart of the second side: `eid + 1` or beyond
+      rw [hfh, List.length_range', b2n] at h
+      by_cases hz : k - (x - (eid + 2)) = 0
+      · omega
+      · have : k - (x - (eid + 2)) = (k - (x - (eid + 2)) - 1) + 1 := by omega
+        rw [this, List.getD_cons_succ, hsh, rg' (by omega)] at h
+        omega
+
+/-- **C16 / C17, step 5 — the whole loop keeps the vertices and creates those of the points of interest**: every dart
+    below the first block keeps its vertex and the values of its slot (coordinates, anchors); the `q`-th point of interest
+    of the `j`-th edge is the coordinate of a vertex of the result, anchored — with the anchor storages — `Node(i + j)` -/
+theorem insertEdgesFrom_carries (ha : Bool) : ∀ (edges : List MEdge) (m m' : Map Val) (next i : Nat), EInv m next →
+    (∀ e, e ∈ edges → C01.InUse m e.start ∧ C01.InUse m e.stop) →
+    next + (edges.map fun e => 2 + 2 * e.inter.length).sum ≤ m.n →
+    run (insertEdgesFrom m.n ha i (edges.zip (edgeSlices next edges))) m = (.ok (), m') →
+    (∀ s y P, s ≠ sBd → y < next → CarriesS m s y P → CarriesS m' s y P) ∧
+    (∀ (j : Nat) (e : MEdge), edges[j]? = some e → ∀ (q : Nat) (pt : Pt), e.inter[q]? = some pt →
+      ∃ x, CarriesS m' 0 x (.pt pt.1 pt.2 0) ∧ (ha = true → CarriesS m' sVA x (.tm (.leaf (4 * (i + j)))))) := by
+  intro edges
+  induction edges with
+  | nil =>
+      intro m m' next i I _ _ h
+      simp only [edgeSlices, List.zip_nil_right, insertEdgesFrom, Prog.pure_eq, run_ret, Prod.mk.injEq] at h
+      rw [← h.2]
+      exact ⟨fun _ _ _ _ _ hc => hc, fun j e he => by simp at he⟩
+  | cons e es ih =>
+      intro m m' next i I hio hroom h
+      simp only [edgeSlices, List.zip_cons_cons, insertEdgesFrom, Prog.bind_eq] at h
+      obtain ⟨_, m1, h1, h2⟩ := run_bind_ok h
+      simp only [List.map_cons, List.sum_cons] at hroom
+      obtain ⟨hs, he⟩ := hio e List.mem_cons_self
+      obtain ⟨I1, n1, u1⟩ := C16_insertOneEdge_inv I hs he (by omega) h1
+      rw [← n1] at h2
+      have hio' : ∀ e', e' ∈ es → C01.InUse m1 e'.start ∧ C01.InUse m1 e'.stop := by
+        intro e' he'
+        obtain ⟨a, b⟩ := hio e' (List.mem_cons_of_mem _ he')
+        exact ⟨⟨a.1, by rw [n1]; exact a.2.1, by unfold Map.unused; rw [u1]; exact a.2.2⟩,
+          ⟨b.1, by rw [n1]; exact b.2.1, by unfold Map.unused; rw [u1]; exact b.2.2⟩⟩
+      obtain ⟨frame', pois'⟩ := ih m1 m' _ (i + 1) I1 hio' (by rw [n1]; omega) h2
+      refine ⟨fun s y P hs9 hy hc => frame' s y P hs9 (by omega) (carriesS_insertOneEdge I hs he (by omega) h1 hs9 hy hc), ?_⟩
+      intro j ej hj q pt hq
+      cases j with
+      | zero =>
+          simp only [List.getElem?_cons_zero, Option.some.injEq] at hj
+          subst hj
+          obtain ⟨_, _, _, hpt, _⟩ := C16_insertOneEdge_shape I hs he (by omega) h1
+          have hqlt : q < e.inter.length := by
+            rcases Nat.lt_or_ge q e.inter.length with hh | hh
+            · exact hh
+            · rw [List.getElem?_eq_none hh] at hq; cases hq
+          have hx0 : next + 2 + q ≠ 0 := by omega
+          have hxlt : next + 2 + q < m1.n := by rw [n1]; omega
+          have iu : C01.InUse m1 (next + 2 + q) :=
+            ⟨hx0, hxlt, by unfold Map.unused; rw [u1]; exact (I.fresh _ (by omega) (by omega)).1⟩
+          have hrun := (C03.C03_vertexId2_min I1.wf hx0 hxlt).1
+          rw [n1] at hrun
+          obtain ⟨p0, pa⟩ := hpt q pt hq _ (by rw [hrun])
+          refine ⟨next + 2 + q, frame' 0 _ _ (by decide) (by omega) ⟨iu, p0⟩, fun hat => ?_⟩
+          rw [Nat.add_zero]
+          exact frame' sVA _ _ (by decide) (by omega) ⟨iu, pa hat⟩
+      | succ j' =>
+          simp only [List.getElem?_cons_succ] at hj
+          obtain ⟨x, c0, ca⟩ := pois' j' ej hj q pt hq
+          exact ⟨x, c0, fun hat => by have := ca hat; rwa [show i + 1 + j' = i + (j' + 1) by omega] at this⟩
+
+/-- **C16 / C17, step 5 on a map** (`insert_edges_in_map` from an untagged well-formed map): every dart keeps its vertex
+    and what its slot holds (coordinates, anchors); every intermediate point of every edge is the coordinate of a vertex,
+    anchored `Node(index of the edge)` when the map has the anchor storages -/
+theorem C16_stepFive_carries {m m' : Map Val} {ha : Bool} {edges : List MEdge} (hwf : WF 3 m)
+    (hnotag : ∀ d, m.att sBd d = none)
+    (hio : ∀ e, e ∈ edges → C01.InUse m e.start ∧ C01.InUse m e.stop)
+    (hr : stepFive m ha edges = (.ok (), m')) :
+    (∀ s y P, s ≠ sBd → CarriesS m s y P → CarriesS m' s y P) ∧
+    (∀ (j : Nat) (e : MEdge), edges[j]? = some e → ∀ (q : Nat) (pt : Pt), e.inter[q]? = some pt →
+      ∃ x, CarriesS m' 0 x (.pt pt.1 pt.2 0) ∧ (ha = true → CarriesS m' sVA x (.tm (.leaf (4 * j))))) := by
+  unfold stepFive at hr
+  simp only at hr
+  set k := (edges.map fun e => 2 + 2 * e.inter.length).sum with hk
+  have hs := hwf.toSized
+  have w1 : WF 3 (m.addFreeDarts k).2 := hwf.addFreeDarts (by omega) k
+  have hn1 : (m.addFreeDarts k).2.n = m.n + k := rfl
+  have t1 := addFreeDarts_att_none sBd hnotag k
+  have I1 : EInv (m.addFreeDarts k).2 m.n := by
+    refine ⟨w1, fun d => Or.inl (t1 d), ?_, hs.npos, ?_⟩
+    · intro d _ _ _
+      show (m.addFreeDarts k).2.att sBd d = _ ↔ (m.addFreeDarts k).2.att sBd _ = _
+      rw [t1, t1]; simp
+    · intro d hd hdn
+      refine ⟨?_, ?_, t1 d⟩
+      · rw [addFreeDarts_unused hs, if_neg (by omega)]
+      · intro i hi; rw [addFreeDarts_β hs k i d hi, if_neg (by omega)]
+  have hio' : ∀ e, e ∈ edges → C01.InUse (m.addFreeDarts k).2 e.start ∧ C01.InUse (m.addFreeDarts k).2 e.stop := by
+    intro e he
+    obtain ⟨a, b⟩ := hio e he
+    refine ⟨⟨a.1, by rw [hn1]; have := a.2.1; omega, ?_⟩, ⟨b.1, by rw [hn1]; have := b.2.1; omega, ?_⟩⟩
+    · rw [addFreeDarts_unused hs, if_pos a.2.1]; exact a.2.2
+    · rw [addFreeDarts_unused hs, if_pos b.2.1]; exact b.2.2
+  have hfst : (m.addFreeDarts k).1 = m.n := rfl
+  rw [hfst] at hr
+  obtain ⟨frame, pois⟩ := insertEdgesFrom_carries ha edges _ m' m.n 0 I1 hio' (by rw [hn1]) hr
+  refine ⟨fun s y P hs9 hc => frame s y P hs9 hc.1.2.1 ?_, fun j e hj q pt hq => ?_⟩
+  · -- `add_free_darts` first
+    obtain ⟨⟨y0, ylt, yu⟩, hat⟩ := hc
+    have hid : C03.cellId (m.addFreeDarts k).2 .vertex y = C03.cellId m .vertex y :=
+      cellId_of_reach hwf w1 y0 ylt (by rw [hn1]; omega) (fun z _ => reach_addFreeDarts hwf k ylt z)
+    refine ⟨⟨y0, by rw [hn1]; omega, by rw [addFreeDarts_unused hs, if_pos ylt]; exact yu⟩, ?_⟩
+    rw [hid, ← hat]
+    have hv := (C03.cellId_spec hwf (pol := .vertex) trivial y0 ylt).1
+    have hvlt : C03.cellId m .vertex y < m.n :=
+      ((C03.C03_orbit2_spec hwf (pol := .vertex) trivial y0 ylt).2.2.2.2.2) _ hv
+    unfold Map.addFreeDarts Map.att
+    simp only
+    by_cases h0 : s < m.a.size
+    · rw [rd_map _ _ _ h0, rd_ext_lt _ _ _ _ (by have := hs.asz s h0; omega)]
+    · rw [rd_oob (a := m.a.map _) (i := s) (by simpa using Nat.le_of_not_lt h0), rd_oob (a := m.a) (i := s) (Nat.le_of_not_lt h0)]
+  · obtain ⟨x, c0, ca⟩ := pois j e hj q pt hq
+    exact ⟨x, c0, fun hat => by have := ca hat; rwa [Nat.zero_add] at this⟩
+
+/-! ## the chain -/
+
+/-- steps 1-5 of the modelled pipeline on the grid map `m0`, for the iteration orders `keys2` (edges of step 2) and
+    `keys4` (keys of step 4) of the two `HashMap`s: `some` of the resulting map when every step succeeds -/
+def pipelineMap (m0 : Map Val) (g : GGrid) (eps : Rat) (poi : List Nat) (verts : List Pt) (segs : List (Nat × Nat))
+    (ha : Bool) (keys2 : List Nat) (keys4 : List GV) : Option (Map Val) :=
+  match stepsTwoThree m0 (slotsAll g eps verts segs) keys2 with
+  | (res, .ok _, m3) =>
+      match edgeData (m3.β 1) (m3.β 2) verts (segmentsOf g eps poi verts segs) res keys4 with
+      | .ok edges =>
+          match stepFive m3 ha edges with
+          | (.ok _, m') => some m'
+          | _ => none
+      | _ => none
+  | _ => none
+
+/-- the data of a successful run -/
+theorem pipelineMap_some {m0 m' : Map Val} {g : GGrid} {eps : Rat} {poi : List Nat} {verts : List Pt}
+    {segs : List (Nat × Nat)} {ha : Bool} {keys2 : List Nat} {keys4 : List GV}
+    (h : pipelineMap m0 g eps poi verts segs ha keys2 keys4 = some m') :
+    ∃ res m3 edges, stepsTwoThree m0 (slotsAll g eps verts segs) keys2 = (res, .ok (), m3) ∧
+      edgeData (m3.β 1) (m3.β 2) verts (segmentsOf g eps poi verts segs) res keys4 = .ok edges ∧
+      stepFive m3 ha edges = (.ok (), m') := by
+  unfold pipelineMap at h
+  rcases h23 : stepsTwoThree m0 (slotsAll g eps verts segs) keys2 with ⟨res, o, m3⟩
+  rw [h23] at h
+  cases o with
+  | ok u =>
+      simp only at h
+      cases h4 : edgeData (m3.β 1) (m3.β 2) verts (segmentsOf g eps poi verts segs) res keys4 with
+      | ok edges =>
+          rw [h4] at h
+          simp only at h
+          rcases h5 : stepFive m3 ha edges with ⟨o5, m5⟩
+          rw [h5] at h
+          cases o5 with
+          | ok u5 => simp only [Option.some.injEq] at h; subst h; exact ⟨res, m3, edges, rfl, h4, h5⟩
+          | err _ => simp at h
+          | retry => simp at h
+          | panic => simp at h
+      | panic => rw [h4] at h; simp at h
+      | diverges => rw [h4] at h; simp at h
+  | err _ => simp at h
+  | retry => simp at h
+  | panic => simp at h
+
+/-- hypothesis **SideCoords**: where the boundary crosses it, the grid map has the side the kernel computed: the dart of
+    every crossing is in use, has a successor, and the point at position `t` between the coordinates of its two end points
+    is the crossing point.  (On the grid `build_2d_grid` returns this is `C16_crossings_sound` — `segPoint a b s =
+    sidePoint g x y k t` — plus the corner coordinates of the builder; evaluated on every case by the hook-level oracle of
+    the `gids` tie: `position`.) -/
+def SideCoords (m0 : Map Val) (g : GGrid) (eps : Rat) (verts : List Pt) (segs : List (Nat × Nat)) : Prop :=
+  ∀ seg, seg ∈ segs → ∀ c, c ∈ crossingsOf g eps (verts.getD seg.1 (0, 0)) (verts.getD seg.2 (0, 0)) →
+    C01.InUse m0 c.dart ∧ m0.β 1 c.dart ≠ 0 ∧ ∃ v1 v2, Carries m0 c.dart v1 ∧ Carries m0 (m0.β 1 c.dart) v2 ∧
+      placeVal v1 v2 (some c.t) =
+        .pt (segPoint (verts.getD seg.1 (0, 0)) (verts.getD seg.2 (0, 0)) c.s).1
+            (segPoint (verts.getD seg.1 (0, 0)) (verts.getD seg.2 (0, 0)) c.s).2 0
+
+/-- hypothesis **KeysOK**: the iteration order of the `HashMap` of step 2 lists distinct in-use identifier darts
+    (`edge_id(e) = e`) with a successor, among them the edge of every written slot -/
+def KeysOK (m0 : Map Val) (slots : List Slot) (keys2 : List Nat) : Prop :=
+  keys2.Nodup ∧ (∀ e, e ∈ keys2 → C01.InUse m0 e ∧ m0.β 1 e ≠ 0 ∧ edgeOf (m0.β 2) e = e) ∧
+  ∀ (K d : Nat) (t : Rat), slots[K]? = some (some (d, t)) → edgeOf (m0.β 2) d ∈ keys2
+
+/-- hypothesis **EdgeDartsInUse**: the start and end darts step 4 hands to step 5 are darts in use of the map after step 3
+    (they are `β2(res[i])` / `res[j]`, darts of the vertices of step 3; a null start dart makes `build_base_edge` panic) -/
+def EdgeDartsInUse (m3 : Map Val) (edges : List MEdge) : Prop :=
+  ∀ e, e ∈ edges → C01.InUse m3 e.start ∧ C01.InUse m3 e.stop
+
+/-- **C16 — every crossing of the boundary with a grid line is a vertex of the map the pipeline returns**.
+    For every grid, every geometry whose segments are in eps-general position, every iteration order of the two `HashMap`s:
+    if the modelled pipeline (steps 1-5) succeeds on a well-formed untagged grid map carrying the sides (SideCoords), then for
+    every segment `a → b` and every parameter `s` at which it crosses a grid line there is a dart in use of the result whose
+    vertex has the coordinates `segPoint a b s`.  Chain: `C16_crossings_complete` (the crossing is reported) →
+    `C16_slots_genpos` (it has a written slot) → `C16_steps23_carries` (all-edges induction of step 3: its dart starts at
+    the point) → `C16_stepFive_carries` (step 5 keeps the vertices). -/
+theorem C16_crossings_are_vertices {m0 m' : Map Val} {g : GGrid} {eps : Rat} {poi : List Nat} {verts : List Pt}
+    {segs : List (Nat × Nat)} {ha : Bool} {keys2 : List Nat} {keys4 : List GV}
+    (hwf : WF 3 m0)
+    (hgen : ∀ seg, seg ∈ segs → GenPos g eps (verts.getD seg.1 (0, 0)) (verts.getD seg.2 (0, 0)))
+    (hside : SideCoords m0 g eps verts segs)
+    (hkeys : KeysOK m0 (slotsAll g eps verts segs) keys2)
+    (hrun : pipelineMap m0 g eps poi verts segs ha keys2 keys4 = some m')
+    (hnotag : ∀ d, m0.att sBd d = none)
+    (hedges : ∀ res m3 edges, stepsTwoThree m0 (slotsAll g eps verts segs) keys2 = (res, .ok (), m3) →
+      edgeData (m3.β 1) (m3.β 2) verts (segmentsOf g eps poi verts segs) res keys4 = .ok edges → EdgeDartsInUse m3 edges) :
+    ∀ seg, seg ∈ segs → ∀ s, IsCrossing g (verts.getD seg.1 (0, 0)) (verts.getD seg.2 (0, 0)) s →
+      ∃ x, Carries m' x (.pt (segPoint (verts.getD seg.1 (0, 0)) (verts.getD seg.2 (0, 0)) s).1
+                             (segPoint (verts.getD seg.1 (0, 0)) (verts.getD seg.2 (0, 0)) s).2 0) := by
+  obtain ⟨res, m3, edges, h23, h4, h5⟩ := pipelineMap_some hrun
+  obtain ⟨hk, hkk, hall⟩ := hkeys
+  obtain ⟨w3, nt3, _, hslot⟩ := C16_steps23_carries hwf hk hkk hall h23
+  obtain ⟨frame5, _⟩ := C16_stepFive_carries w3 (nt3 hnotag) (hedges res m3 edges h23 h4) h5
+  intro seg hseg s hs
+  set a := verts.getD seg.1 (0, 0) with ha'
+  set b := verts.getD seg.2 (0, 0) with hb'
+  have H := hgen seg hseg
+  -- the crossing is reported, and has a written slot
+  obtain ⟨c, hc, hcs⟩ := C16_crossings_complete H hs
+  have hcm : c ∈ crossingsMeta g eps a b := ((C16_metadata_same_intersections g eps a b).1 c).2 hc
+  have hmem : some (c.dart, c.t) ∈ slotsAll g eps verts segs := by
+    unfold slotsAll
+    rw [List.mem_flatMap]
+    refine ⟨seg, hseg, ?_⟩
+    rw [← ha', ← hb', C16_slots_genpos H]
+    exact List.mem_map.2 ⟨c, hcm, rfl⟩
+  obtain ⟨K, hK⟩ := List.getElem?_of_mem hmem
+  obtain ⟨iu, b1, v1, v2, c1, c2, hpt⟩ := hside seg hseg c hc
+  obtain ⟨x, _, hx⟩ := hslot K c.dart c.t hK iu b1 v1 v2 c1 c2
+  rw [hpt, hcs] at hx
+  exact ⟨x, frame5 0 x _ (by decide) hx⟩
+
+/-- hypothesis **OnChain**: the point of interest `v` lies on the chain of `new_segments` that leaves the intersection `k`
+    — one of the keys step 4 iterates over — before the next intersection.  True for every point of interest of a loop
+    that crosses a grid line (a loop inside one cell has no key at all: finding D16a / D17a). -/
+def OnChain (segsM : List (GV × GV)) (keys4 : List GV) (v : Nat) : Prop :=
+  ∃ k v0 l e, k ∈ keys4 ∧ segNext segsM k = some v0 ∧ Path segsM v0 l e ∧ l.length < segsM.length + 1 ∧ GV.poi v ∈ l
+
+theorem poisOf_mem {verts : List Pt} {l : List GV} {v : Nat} (h : GV.poi v ∈ l) : verts.getD v (0, 0) ∈ poisOf verts l := by
+  unfold poisOf
+  rw [List.mem_filterMap]
+  exact ⟨.poi v, h, rfl⟩
+
+/-- **C16 / C17 — every retained point of interest on a chain between two crossings is a vertex of the map the pipeline
+    returns; in capture (anchor storages) that vertex is anchored to a node**.  Chain: `C16_edge_of_key_spec` (it is an
+    intermediate point of the edge of its key) → `C16_edge_data_spec` (that edge is built, whatever the `HashMap` order) →
+    `C16_insertOneEdge_shape` (it becomes the coordinate of the vertex of an intermediate dart, anchored `Node(j)`) →
+    `carriesS_insertOneEdge` (the later iterations keep that vertex). -/
+theorem C16_poi_are_vertices {m0 m' : Map Val} {g : GGrid} {eps : Rat} {poi : List Nat} {verts : List Pt}
+    {segs : List (Nat × Nat)} {ha : Bool} {keys2 : List Nat} {keys4 : List GV}
+    (hwf : WF 3 m0) (hnotag : ∀ d, m0.att sBd d = none) (hkeys : KeysOK m0 (slotsAll g eps verts segs) keys2)
+    (hrun : pipelineMap m0 g eps poi verts segs ha keys2 keys4 = some m')
+    (hedges : ∀ res m3 edges, stepsTwoThree m0 (slotsAll g eps verts segs) keys2 = (res, .ok (), m3) →
+      edgeData (m3.β 1) (m3.β 2) verts (segmentsOf g eps poi verts segs) res keys4 = .ok edges → EdgeDartsInUse m3 edges)
+    {v : Nat} (hv : OnChain (segmentsOf g eps poi verts segs) keys4 v) :
+    ∃ x j, Carries m' x (.pt (verts.getD v (0, 0)).1 (verts.getD v (0, 0)).2 0) ∧
+      (ha = true → CarriesS m' sVA x (.tm (.leaf (4 * j)))) := by
+  obtain ⟨res, m3, edges, h23, h4, h5⟩ := pipelineMap_some hrun
+  obtain ⟨w3, nt3, _, _⟩ := C16_steps23_carries hwf hkeys.1 hkeys.2.1 hkeys.2.2 h23
+  obtain ⟨_, pois⟩ := C16_stepFive_carries w3 (nt3 hnotag) (hedges res m3 edges h23 h4) h5
+  obtain ⟨k, v0, l, e, hk, hn, hp, hl, hvl⟩ := hv
+  obtain ⟨j, hj⟩ := List.getElem?_of_mem hk
+  obtain ⟨_, hspec⟩ := C16_edge_data_spec _ _ _ _ _ _ _ h4
+  obtain ⟨ed, hed, hkey⟩ := hspec j k hj
+  have hed' := (C16_edge_of_key_spec (m3.β 1) (m3.β 2) verts (segmentsOf g eps poi verts segs) res k _).2
+    ⟨v0, l, e, hn, hp, hl, rfl⟩
+  rw [hed'] at hkey
+  injection hkey with hkey
+  obtain ⟨q, hq⟩ := List.getElem?_of_mem (poisOf_mem (verts := verts) hvl)
+  have hq' : ed.inter[q]? = some (verts.getD v (0, 0)) := by rw [← hkey]; exact hq
+  obtain ⟨x, c0, ca⟩ := pois j ed hed q _ hq'
+  exact ⟨x, j, c0, ca⟩
+
+/-- **C17 — capture: each retained point of interest is a vertex anchored to a node** (`C16_poi_are_vertices` with the
+    anchor storages) -/
+theorem C17_poi_are_node_vertices {m0 m' : Map Val} {g : GGrid} {eps : Rat} {poi : List Nat} {verts : List Pt}
+    {segs : List (Nat × Nat)} {keys2 : List Nat} {keys4 : List GV}
+    (hwf : WF 3 m0) (hnotag : ∀ d, m0.att sBd d = none) (hkeys : KeysOK m0 (slotsAll g eps verts segs) keys2)
+    (hrun : pipelineMap m0 g eps poi verts segs true keys2 keys4 = some m')
+    (hedges : ∀ res m3 edges, stepsTwoThree m0 (slotsAll g eps verts segs) keys2 = (res, .ok (), m3) →
+      edgeData (m3.β 1) (m3.β 2) verts (segmentsOf g eps poi verts segs) res keys4 = .ok edges → EdgeDartsInUse m3 edges)
+    {v : Nat} (hv : OnChain (segmentsOf g eps poi verts segs) keys4 v) :
+    ∃ x j, C01.InUse m' x ∧
+      m'.att 0 (C03.cellId m' .vertex x) = some (.pt (verts.getD v (0, 0)).1 (verts.getD v (0, 0)).2 0) ∧
+      m'.att sVA (C03.cellId m' .vertex x) = some (.tm (.leaf (4 * j))) := by
+  obtain ⟨x, j, c0, ca⟩ := C16_poi_are_vertices hwf hnotag hkeys hrun hedges hv
+  exact ⟨x, j, c0.1, c0.2, (ca rfl).2⟩
+
+/-! ## the hypotheses are satisfiable together -/
+
+/-- the 3 × 1 row of unit cells of `C16Clip`, untagged, with the coordinates of the four corners between the cells -/
+def exRowPlain : Map Val := ((exRow.setA sBd 2 none).setA sBd 8 none).setA 0 7 (some (.pt 2 1 0))
+
+theorem exRowPlain_wf : WF 3 exRowPlain := by decide +kernel
+theorem exRowPlain_notag : ∀ d, exRowPlain.att sBd d = none := by
+  intro d
+  by_cases h : d < 14
+  · have : ∀ x, x < 14 → exRowPlain.att sBd x = none := by decide +kernel
+    exact this d h
+  · unfold Map.att
+    rw [rd_oob _ d (by have : (rd exRowPlain.a sBd).size = 14 := by decide +kernel
+                       omega)]
+    rfl
+
+/-- (A) one segment in general position (`exGenPos`), crossing the line `x = 1` at `(1, 5/8)` -/
+def exVA : List Pt := [(1/4, 1/2), (7/4, 3/4)]
+
+theorem exA_slots : slotsAll exGrid (1/8) exVA [(0, 1)] = [some (2, 5/8)] := by decide +kernel
+
+example : ∃ m' x, pipelineMap exRowPlain exGrid (1/8) [] exVA [(0, 1)] false [2] [] = some m' ∧
+    Carries m' x (.pt 1 (5/8) 0) := by
+  have hsome : (pipelineMap exRowPlain exGrid (1/8) [] exVA [(0, 1)] false [2] []).isSome = true := by decide +kernel
+  obtain ⟨m', hm'⟩ := Option.isSome_iff_exists.1 hsome
+  have hcross : crossingsOf exGrid (1/8) (1/4, 1/2) (7/4, 3/4) = [⟨2, 5/8, 1/2⟩] := by decide +kernel
+  have := C16_crossings_are_vertices (m0 := exRowPlain) (g := exGrid) (eps := 1/8) (poi := []) (verts := exVA)
+    (segs := [(0, 1)]) (ha := false) (keys2 := [2]) (keys4 := []) exRowPlain_wf
+    (by intro seg hseg
+        have : seg = (0, 1) := by simpa using hseg
+        subst this; exact exGenPos)
+    (by intro seg hseg c hc
+        have : seg = (0, 1) := by simpa using hseg
+        subst this
+        have hc' : c ∈ crossingsOf exGrid (1/8) (1/4, 1/2) (7/4, 3/4) := hc
+        rw [hcross] at hc'
+        have : c = ⟨2, 5/8, 1/2⟩ := by simpa using hc'
+        subst this
+        refine ⟨by decide +kernel, by decide +kernel, .pt 1 0 0, .pt 1 1 0, ⟨by decide +kernel, by decide +kernel⟩,
+          ⟨by decide +kernel, by decide +kernel⟩, by decide +kernel⟩)
+    (by rw [exA_slots]
+        refine ⟨by decide, by decide +kernel, ?_⟩
+        intro K d t hK
+        cases K with
+        | zero => simp only [List.getElem?_cons_zero, Option.some.injEq, Prod.mk.injEq] at hK
+                  obtain ⟨rfl, _⟩ := hK; decide +kernel
+        | succ K' => simp at hK)
+    hm' exRowPlain_notag
+    (by intro res m3 edges _ h4
+        simp only [edgeData, Res.ok.injEq] at h4
+        subst h4
+        intro e he; cases he)
+    (0, 1) (by simp) (1/2)
+    (by show IsCrossing exGrid (1/4, 1/2) (7/4, 3/4) (1/2)
+        exact ⟨by norm_num, by norm_num, Or.inl ⟨1, by simp [segPoint, exGrid]; norm_num⟩⟩)
+  obtain ⟨x, hx⟩ := this
+  refine ⟨m', x, hm', ?_⟩
+  have e : segPoint (exVA.getD 0 (0, 0)) (exVA.getD 1 (0, 0)) (1/2) = (1, 5/8) := by decide +kernel
+  simp only at hx
+  rw [e] at hx
+  exact hx
+
+/-- (B) a boundary piece `a → b → c` through the three cells, `b` a point of interest between the two crossings -/
+def exVB : List Pt := [(1/2, 1/4), (3/2, 1/2), (5/2, 1/4)]
+def exSB : List (Nat × Nat) := [(0, 1), (1, 2)]
+
+theorem exB_slots : slotsAll exGrid (1/8) exVB exSB = [some (2, 3/8), some (6, 3/8)] := by decide +kernel
+
+example : ∃ m' x j, pipelineMap exRowPlain exGrid (1/8) [1] exVB exSB true [2, 6] [.intersec 0] = some m' ∧
+    C01.InUse m' x ∧ m'.att 0 (C03.cellId m' .vertex x) = some (.pt (3/2) (1/2) 0) ∧
+    m'.att sVA (C03.cellId m' .vertex x) = some (.tm (.leaf (4 * j))) := by
+  have hsome : (pipelineMap exRowPlain exGrid (1/8) [1] exVB exSB true [2, 6] [.intersec 0]).isSome = true := by
+    decide +kernel
+  obtain ⟨m', hm'⟩ := Option.isSome_iff_exists.1 hsome
+  obtain ⟨x, j, h1, h2, h3⟩ := C17_poi_are_node_vertices (m0 := exRowPlain) (g := exGrid) (eps := 1/8) (poi := [1])
+    (verts := exVB) (segs := exSB) (keys2 := [2, 6]) (keys4 := [.intersec 0]) (v := 1) exRowPlain_wf exRowPlain_notag
+    (by rw [exB_slots]
+        refine ⟨by decide, by decide +kernel, ?_⟩
+        intro K d t hK
+        rcases K with _ | _ | K'
+        · simp only [List.getElem?_cons_zero, Option.some.injEq, Prod.mk.injEq] at hK
+          obtain ⟨rfl, _⟩ := hK; decide +kernel
+        · simp only [List.getElem?_cons_succ, List.getElem?_cons_zero, Option.some.injEq, Prod.mk.injEq] at hK
+          obtain ⟨rfl, _⟩ := hK; decide +kernel
+        · simp at hK)
+    hm'
+    (by intro res m3 edges h23 h4
+        have hr : res = (stepsTwoThree exRowPlain (slotsAll exGrid (1/8) exVB exSB) [2, 6]).1 := by rw [h23]
+        have hm : m3 = (stepsTwoThree exRowPlain (slotsAll exGrid (1/8) exVB exSB) [2, 6]).2.2 := by rw [h23]
+        subst hr hm
+        have hed : edgeData ((stepsTwoThree exRowPlain (slotsAll exGrid (1/8) exVB exSB) [2, 6]).2.2.β 1)
+            ((stepsTwoThree exRowPlain (slotsAll exGrid (1/8) exVB exSB) [2, 6]).2.2.β 2) exVB
+            (segmentsOf exGrid (1/8) [1] exVB exSB) (stepsTwoThree exRowPlain (slotsAll exGrid (1/8) exVB exSB) [2, 6]).1
+            [.intersec 0] = .ok [{ start := 8, inter := [(3/2, 1/2)], stop := 15 }] := by decide +kernel
+        rw [hed] at h4
+        injection h4 with h4
+        subst h4
+        intro e he
+        have : e = { start := 8, inter := [(3/2, 1/2)], stop := 15 } := by simpa using he
+        subst this
+        exact ⟨by decide +kernel, by decide +kernel⟩)
+    ⟨.intersec 0, .poi 1, [.poi 1], .intersec 1, by simp, by decide +kernel,
+      Path.step rfl (by decide +kernel) (Path.stop rfl), by decide +kernel, by simp⟩
+  exact ⟨m', x, j, hm', h1, h2, h3⟩
 
 end HC.C16
